@@ -183,6 +183,13 @@ def gen_pack(rng, dirty, big):
 CFGS = [[0, 1, 2, 3]] * 6 + [[2, 3, 0, 1], [10, 11, 200, 255], [0, 1, -1, -1], [0, 0, 2, 3], [4, 5, 6, 7], [1, 0, 3, 2], [0, 1, 2, 300]]
 
 
+def gen_cfg(rng, n=4):
+    """channel tables with repeated, unsubscribed (-1) and out-of-byte entries"""
+    if rng.random() < 0.6:
+        return rng.choice(CFGS)
+    return [rng.choice([0, 1, 2, 3, 3, 5, 255, -1, 300]) for _ in range(n)]
+
+
 def gen_chunks(rng):
     r = rng.random()
     if r < 0.15:
@@ -210,7 +217,7 @@ def gen_items_case(rng, dirty, big):
     tail = b""
     if rng.random() < 0.2:
         tail = rng.choice([b"\r\n", b"$", b"RTSP", b"OPTIONS * RTSP/1.0\r\n", b"$\x00\x00\x05abc", bytes(rng.randrange(256) for _ in range(9))])
-    cfg = rng.choice(CFGS) if dirty else rng.choice(CFGS[:9])
+    cfg = gen_cfg(rng) if dirty else rng.choice(CFGS[:9])
     return [cfg, gen_bufsize(rng), gen_chunks(rng), items, tail]
 
 
@@ -395,13 +402,13 @@ def run(ck):
     for s in SPECIALS:
         for kind in (0, 1, 2, 3):
             raws.append(raw(kind, [0, 1, 2, 3], rng, s))
-        raws.append(raw(0, rng.choice(CFGS), rng, s))
+        raws.append(raw(0, gen_cfg(rng), rng, s))
     for _ in range(6000 if T else 600):
         c = gen_items_case(rng, False, False)
         s = b"".join(py_encode(c[0], it) for it in c[3]) + c[4]
         raws.append(raw(rng.choice([0, 0, 0, 0, 1, 2, 3]), c[0], rng, mutate(rng, s)))
     for _ in range(4000 if T else 400):
-        cfg = rng.choice(CFGS + [[], [0], [0, 1, 2, 3, 4, 5]])
+        cfg = gen_cfg(rng, rng.choice([4, 4, 4, 0, 1, 6]))
         raws.append(raw(rng.choice([0, 0, 1, 2, 3]), cfg, rng, gen_garbage(rng)))
     ck.stream("raw_streams", raws, "C14_raw", "C14_raw", "C14_raw_ok", nontrivial=lambda c: len(c[4]) >= 8,
               compare=False, sig=lambda c, e, o: "raw-stream")
